@@ -13,6 +13,10 @@ use std::collections::{BTreeMap, BTreeSet};
 pub enum AKind {
     Type,
     Value,
+    /// information object class (documented as producing no output)
+    Class,
+    /// parameterized type template (documented as producing no output)
+    Param,
 }
 
 #[derive(Clone, Debug, Serialize, Deserialize, PartialEq)]
@@ -256,6 +260,14 @@ pub struct GenCfg {
     /// prefer value assignments governed by named (local or imported) types, and prefer
     /// imported values as constraint bounds: exercises the linker's associated-type imports
     pub value_import_bias: bool,
+    /// modules may define an information object class and a parameterized type, and other
+    /// modules may import them (the import clause then legitimately becomes a wildcard use)
+    pub classes: bool,
+    /// REAL as a component type (supported as f64; a top-level REAL is not)
+    pub real_components: bool,
+    /// a module may define a top-level type whose name equals the name the backend derives for
+    /// an anonymous inner type of ANOTHER module (Cell + field id -> CellId)
+    pub echo_inner_names: bool,
 }
 
 impl GenCfg {
@@ -273,6 +285,9 @@ impl GenCfg {
             cyclic_imports: true,
             intra_shared_enumerals: false,
             value_import_bias: false,
+            classes: false,
+            real_components: false,
+            echo_inner_names: false,
         }
     }
 }
@@ -440,6 +455,7 @@ impl<'a> G<'a> {
             w_struct / 2 + (structured_ok as u32), // 10 CHOICE
             w_struct / 2 + (structured_ok as u32), // 11 SEQUENCE OF / SET OF
             6,        // 12 reference
+            (self.cfg.real_components && depth >= 1) as u32, // 13 REAL (component only)
         ]);
         let text = match choice {
             0 => {
@@ -561,8 +577,16 @@ impl<'a> G<'a> {
                 info.cat = "of";
                 let kw = *self.rng.pick(&["SEQUENCE", "SET"]);
                 let size = if self.rng.chance(1, 3) { format!(" {}", self.size_constraint()) } else { String::new() };
-                let (inner, _) = self.gen_type(m, depth + 1, owner, refs);
+                let (mut inner, _) = self.gen_type(m, depth + 1, owner, refs);
+                if inner == "REAL" {
+                    // REAL is supported as a member type, not as the element of SEQUENCE/SET OF
+                    inner = "BOOLEAN".to_string();
+                }
                 format!("{kw}{size} OF {inner}")
+            }
+            13 => {
+                info.cat = "real";
+                "REAL".to_string()
             }
             _ => {
                 info.cat = "alias";
@@ -870,6 +894,8 @@ pub fn generate(rng: &mut Rng, cfg: &GenCfg) -> ModuleSet {
             done_values[mi].push(ValueInfo { name: vn.clone(), cat: "int", int: rng.range(1, 300) });
         }
     }
+    // symbols of classes / parameterized templates each generated module exports (import form)
+    let mut class_syms: Vec<Vec<String>> = vec![vec![]; nmods];
     let mut modules: Vec<Module> = vec![];
     for mi in 0..nmods {
         let p = &pres[mi];
@@ -993,12 +1019,51 @@ pub fn generate(rng: &mut Rng, cfg: &GenCfg) -> ModuleSet {
                 assigns.push(Assign { name: vname, kind: AKind::Value, text, refs, comment: String::new() });
             }
         }
+        // classes / parameterized templates exported by earlier-indexed modules may be imported
+        // here (possibly without being used: an unused import is legal)
+        if cfg.classes {
+            for &j in &import_from[mi] {
+                for sym in &class_syms[j] {
+                    if g.rng.chance(1, 2) {
+                        ctx.used_imports.entry(pres[j].name.clone()).or_default().insert(sym.clone());
+                    }
+                }
+            }
+            if g.rng.chance(1, 3) {
+                let cname = format!("{}-CLASS", p.stem.to_uppercase().trim_end_matches('-'));
+                assigns.push(Assign {
+                    name: cname.clone(),
+                    kind: AKind::Class,
+                    text: format!("{cname} ::= CLASS {{ &id INTEGER UNIQUE, &Type OPTIONAL }} WITH SYNTAX {{ ID &id [TYPE &Type] }}"),
+                    refs: vec![],
+                    comment: String::new(),
+                });
+            }
+            if g.rng.chance(1, 3) {
+                let pname = format!("{}Box", p.stem.trim_end_matches('-'));
+                assigns.push(Assign {
+                    name: pname.clone(),
+                    kind: AKind::Param,
+                    text: format!("{pname} {{ElementType}} ::= SEQUENCE {{ content ElementType, count INTEGER (0..7) }}"),
+                    refs: vec![],
+                    comment: String::new(),
+                });
+            }
+        }
         let imports: Vec<Import> = ctx
             .used_imports
             .iter()
             .map(|(from, syms)| Import { from: from.clone(), symbols: syms.iter().cloned().collect(), with_oid: g.rng.chance(1, 2) })
             .collect();
         done_types[mi] = ctx.types.clone();
+        class_syms[mi] = assigns
+            .iter()
+            .filter_map(|a| match a.kind {
+                AKind::Class => Some(a.name.clone()),
+                AKind::Param => Some(format!("{}{{}}", a.name)),
+                _ => None,
+            })
+            .collect();
         let _ = (ctx.idx, ctx.ident_counter);
         let has_oid = g.rng.chance(2, 3);
         modules.push(Module {
@@ -1013,7 +1078,47 @@ pub fn generate(rng: &mut Rng, cfg: &GenCfg) -> ModuleSet {
             indent: if g.rng.chance(1, 2) { "  ".into() } else { "\t".into() },
         });
     }
-    ModuleSet { modules }
+    let mut set = ModuleSet { modules };
+    if cfg.echo_inner_names && set.modules.len() >= 2 {
+        // find `Type ::= SEQUENCE/SET {` with a first-level member that is itself an inline
+        // SEQUENCE / SET / CHOICE / ENUMERATED, derive the inner type's name the way such names
+        // are usually built (TitleCase(type) + TitleCase(member)) and give it to a new top-level
+        // type of ANOTHER module
+        let title = |s: &str| -> String {
+            s.split('-').filter(|p| !p.is_empty()).map(|p| { let mut c = p.chars(); c.next().map(|f| f.to_uppercase().collect::<String>() + c.as_str()).unwrap_or_default() }).collect()
+        };
+        let mut found: Option<(usize, String)> = None;
+        'outer: for (mi, m) in set.modules.iter().enumerate() {
+            for a in &m.assigns {
+                if a.kind != AKind::Type {
+                    continue;
+                }
+                for line in a.text.lines().skip(1) {
+                    // first-level members are indented by exactly two spaces
+                    if let Some(rest) = line.strip_prefix("  ") {
+                        if rest.starts_with(' ') {
+                            continue;
+                        }
+                        let mut it = rest.split_whitespace();
+                        let (Some(member), Some(kw)) = (it.next(), it.next()) else { continue };
+                        let kw2 = if kw.starts_with('[') { it.find(|w| !w.ends_with(']') && *w != "IMPLICIT" && *w != "EXPLICIT" && !w.starts_with('[')).unwrap_or("") } else { kw };
+                        if matches!(kw2, "SEQUENCE" | "SET" | "CHOICE" | "ENUMERATED") && !rest.contains(" OF ") {
+                            found = Some((mi, format!("{}{}", title(&a.name), title(member))));
+                            break 'outer;
+                        }
+                    }
+                }
+            }
+        }
+        if let Some((mi, name)) = found {
+            let other = (mi + 1 + rng.below(set.modules.len() - 1)) % set.modules.len();
+            let taken = set.modules.iter().any(|m| m.assigns.iter().any(|a| a.name == name));
+            if !taken {
+                set.modules[other].assigns.push(Assign { name: name.clone(), kind: AKind::Type, text: format!("{name} ::= BOOLEAN"), refs: vec![], comment: String::new() });
+            }
+        }
+    }
+    set
 }
 
 /// A sibling input: same module and assignment names, different bodies and defaults —
